@@ -146,7 +146,10 @@ def _accessors(ck: Checker) -> None:
     g = ck.cfg(gi)
     rets = [n for n in g.nodes.values() if n.kind == "stmt" and isinstance(n.ast, ast.Return)]
     lds = {n.id for n in g.nodes.values() for c in calls_at(n) if is_method_call(c, "_load") and norm(c.func.value) == "self"}
-    final = [n for n in rets if isinstance(n.ast.value, ast.Subscript)]
+    # the retry of the raw lookup after a miss: `self._trie[key]` read (returned directly or via a local)
+    from ..cfg import node_exprs
+
+    final = [n for n in g.nodes.values() if n.kind == "stmt" and any(isinstance(x, ast.Subscript) and isinstance(x.ctx, ast.Load) and norm(x.value) == "self._trie" for e in node_exprs(n) for x in walk_expr(e))]
     ck.floor("C17.accessors", len(final), 1, "miss-path return in DataIndex.__getitem__")
     for n in final:
         def skip(a, lab, b):
@@ -235,6 +238,30 @@ def _children(ck: Checker, rule: str = "C17.children") -> None:
                     ok = ih.id not in rr
                 else:
                     why = f"prefix loop is `for {iv} in {norm(it)}` adding {norm(c.args[0])}: it does not enumerate every proper prefix {ik}[:1] .. {ik}[:-1]"
+    # the same collection written as one bulk update:  dirs.update(ikey[:-idx] for idx in range(1, len(ikey)))
+    for n in g.nodes.values():
+        if h.id not in n.loops:
+            continue
+        for c in calls_at(n):
+            if not (is_method_call(c, "update", "extend") and len(c.args) == 1 and isinstance(c.args[0], (ast.GeneratorExp, ast.ListComp, ast.SetComp)) and len(c.args[0].generators) == 1):
+                continue
+            comp = c.args[0]
+            gen = comp.generators[0]
+            elt = comp.elt
+            if not (isinstance(elt, ast.Subscript) and norm(elt.value) == ik and isinstance(elt.slice, ast.Slice) and elt.slice.lower is None and elt.slice.upper is not None):
+                continue
+            adds.append((n, c))
+            it, iv, up = gen.iter, norm(gen.target), norm(elt.slice.upper)
+            if isinstance(it, ast.Call) and call_name(it) == "range" and not gen.ifs:
+                a = [norm(x) for x in it.args]
+                full = (a == ["1", f"len({ik})"] and up in (iv, f"-{iv}")) or (a == [f"len({ik}) - 1", "0", "-1"] and up == iv)
+                if full:
+                    rr = g.reach([d for lab, d in h.succ if lab == "T"], skip_node=lambda x, n=n: x.id == n.id, skip_edge=lambda p, l, q: l == "exc")
+                    ok = ok or h.id not in rr
+                else:
+                    why = f"bulk prefix collection {norm(c)} does not enumerate every proper prefix {ik}[:1] .. {ik}[:-1]"
+            else:
+                why = f"bulk prefix collection {norm(c)} is filtered or not a range over the key length"
     ck.require(ok, rule, fn, adds[0][0] if adds else h, "every proper prefix of every row key becomes an (implicit) directory entry",
                f"not every proper prefix of a row key gets a directory entry ({why}): intermediate directories of nested listings are missing from the lazily loaded index")
     dl = [x for x in g.nodes.values() if x.kind == "for" and not (set(x.loops) & {h.id}) and isinstance(x.ast.iter, ast.Name)]
@@ -251,8 +278,8 @@ def _fs(ck: Checker) -> None:
     prog = ck.prog
     fn = prog.func("fs", "DataFileSystem._get_fs_path")
     g = ck.cfg(fn)
-    rets = [n for n in g.nodes.values() if n.kind == "stmt" and isinstance(n.ast, ast.Return) and isinstance(n.ast.value, ast.Call) and call_name(n.ast.value) == "FileInfo"]
-    ck.floor("C17.fs", len(rets), 1, "FileInfo returns in the fs adaptor")
+    rets = [n for n in g.nodes.values() if n.kind == "stmt" and isinstance(n.ast, (ast.Return, ast.Assign)) and isinstance(n.ast.value, ast.Call) and call_name(n.ast.value) == "FileInfo"]
+    ck.floor("C17.fs", len(rets), 1, "FileInfo constructions in the fs adaptor")
     for n in rets:
         v = n.ast.value
         fsn = norm(v.args[-2]) if len(v.args) >= 2 else None
